@@ -4,6 +4,7 @@ CONSTANTS MaxPages = 3
           MaxCalls = 10
           ShapeStops = FALSE
           Stream = TRUE
+          HaltInFetch = TRUE
 INVARIANTS TypeOK Agree InOrderExactlyOnce CursorIsCount CtorFailureIsError
 PROPERTIES NothingAfterStop HasNextIdempotent
 VIEW View
